@@ -3,7 +3,7 @@ NOTES = ("Technique family: static analysis only. Every check inspects /repo's c
          "(no code of /repo is executed). Each property is claimed for the structural clauses named in level_claimed.text; "
          "the behavioural remainder is stated in level_note. fix: commits and recorded findings are listed in known_findings.json.")
 # properties whose check is reviewed and released; anything else stays under not_applicable until then
-ENABLED = ["C01", "C02", "C03", "C04", "C05", "C06", "C07", "C08", "C09", "C10", "C11", "C12", "C13", "C14", "C15", "C16", "C18", "C19", "C20"]
+ENABLED = ["C01", "C02", "C03", "C04", "C05", "C06", "C07", "C08", "C09", "C10", "C11", "C12", "C13", "C14", "C15", "C16", "C17", "C18", "C19", "C20"]
 NOT_APPLICABLE = {}
 CLAIMS = {
  "C01": {
